@@ -2,7 +2,7 @@
    the intended commands, executes them in order, and the client reads exactly one reply line per command. *)
 From Coq Require Import ZArith List Bool Lia.
 From PM Require Import Lib.Py Spec.LegalKey Model.Lits Spec.Proto Spec.Server Model.World Model.Readers Model.Serde Model.Client
-                       Proofs.Hoare Proofs.ReaderFacts Proofs.DecimalFacts Proofs.C02Proof Proofs.C05Proof Proofs.Quiet Proofs.E2E.
+                       Proofs.Hoare Proofs.ReaderFacts Proofs.DecimalFacts Proofs.C02Proof Proofs.C05Proof Proofs.Quiet Proofs.QuietFetch Proofs.QuietConnect Proofs.QuietAny Proofs.E2E.
 Import ListNotations.
 Open Scope Z_scope.
 
@@ -31,8 +31,12 @@ Section E2EMany.
 Variable c : cfg.
 Hypothesis catches_misc : forall e, exn_isa e Exception_ = true -> exn_isa e (h_misc c) = true.
 Hypothesis catches_store : forall e, exn_isa e Exception_ = true -> exn_isa e (h_store c) = true.
+Variable fr : option Z.               (* Some sid: connected on sid, nothing pending; None: any ready client (Proofs/QuietAny.v) *)
+Hypothesis Hcan : connectable c fr.
 Notation world := (world sstate).
 Notation St := (St sstate).
+Notation Start := (Start sstate fr).
+Notation Done := (Done sstate fr).
 
 (* ---- set_many ---- *)
 Definition is_set (nr : bool) (cm : cmd) : Prop := exists k f e db, cm = CStore VSet k f e db [] nr.
@@ -78,12 +82,12 @@ Proof. intros (k & f & e & db & ->). split; reflexivity. Qed.
 
 (* every item is stored (set always stores), the call returns the empty list of failed keys, the server state is the
    result of the sets in order, nothing is left unread *)
-Theorem set_many_e2e sid s pairs expire n flags bytes :
+Theorem set_many_e2e s pairs expire n flags bytes :
   let nr := eff_noreply c n in
   store_bytes c L_set pairs expire nr flags None = Ok bytes -> in_i64 expire -> in_u32 flags ->
   exists cmds, store_intent c VSet pairs expire nr flags [] = Ok cmds /\ Forall (is_set nr) cmds /\ length cmds = length pairs /\
-  hoare (St sid s []) (run_op sstate serve c (OpSetMany pairs expire n flags))
-        (fun r w => r = DList [] /\ St sid (fst (run_cmds s cmds)) [] w) (fun _ _ => False).
+  hoare (Start s) (run_op sstate serve c (OpSetMany pairs expire n flags))
+        (fun r w => r = DList [] /\ Done (fst (run_cmds s cmds)) w) (fun _ _ => False).
 Proof.
   cbn zeta. set (nr := eff_noreply c n). intros Hb He Hf.
   change L_set with (sverb_name VSet) in Hb. change None with (cas_opt VSet []) in Hb.
@@ -98,7 +102,7 @@ Proof.
   - assert (Hsil : steps s cmds = (fst (run_cmds s cmds), [])).
     { apply steps_silent. eapply Forall_impl; [|exact Hsets]. intros cm H. apply (set_wf_single true cm H). }
     rewrite Hsil in Hsv.
-    pose proof (store_io_noreply_value sstate serve c sid s _ (sverb_name VSet) pairs bytes Hsv w Hw) as Q.
+    pose proof (store_io_noreply_value_any sstate serve c fr Hcan s _ (sverb_name VSet) pairs bytes Hsv w Hw) as Q.
     destruct (store_io sstate serve c (sverb_name VSet) pairs true bytes w) as [[r|x] w']; [|destruct Q].
     destruct Q as [-> Q2]. cbn [ret]. split; [|exact Q2]. f_equal. apply failed_of_all_true, fold_all_true. constructor.
   - assert (Hlines : steps s cmds = (fst (run_cmds s cmds), lines_bytes (map reply_line (snd (run_cmds s cmds))))).
@@ -110,7 +114,7 @@ Proof.
     assert (Hn : length (map reply_line (snd (run_cmds s cmds))) = length pairs) by (rewrite map_length, run_cmds_length; exact Hlen).
     assert (Hok : Forall line_ok (map reply_line (snd (run_cmds s cmds)))).
     { eapply Forall_impl; [|exact Hl]. intros l ->. repeat constructor; discriminate. }
-    pose proof (store_io_quiet sstate serve c sid s _ (sverb_name VSet) pairs bytes _ Hsv Hn Hok catches_store w Hw) as Q.
+    pose proof (store_io_any sstate serve c fr Hcan s _ (sverb_name VSet) pairs bytes _ Hsv Hn Hok catches_store w Hw) as Q.
     destruct (read_all_stored pairs _ [] Hl Hn ltac:(constructor)) as (res & Eres & Hres).
     destruct (store_io sstate serve c (sverb_name VSet) pairs false bytes w) as [[r|x] w'].
     + destruct Q as [Q1 Q2]. change (sverb_name VSet) with L_set in Q1. rewrite Eres in Q1. inversion Q1; subst r. cbn [ret].
@@ -161,15 +165,17 @@ Proof.
   split; [destruct (I3 ([] ++ [reply_line o])) as (res & ->); discriminate|]. intros acc. apply I3.
 Qed.
 
-Theorem delete_many_e2e sid s (oneshot : bool) keys n ks : legal_keys keys = Ok ks ->
+Theorem delete_many_e2e s (oneshot : bool) keys n ks : legal_keys keys = Ok ks ->
   let nr := eff_noreply c n in
-  hoare (St sid s []) (run_op sstate serve c (OpDeleteMany oneshot keys n))
-        (fun r w => r = DBool true /\ St sid (fst (run_cmds s (map (fun k => CDelete k nr) ks))) [] w) (fun _ _ => False).
+  hoare (Start s) (run_op sstate serve c (OpDeleteMany oneshot keys n))
+        (fun r w => r = DBool true /\
+                    ((ks = [] /\ Start s w)          (* an empty list: nothing is sent, the client stays as it was *)
+                     \/ Done (fst (run_cmds s (map (fun k => CDelete k nr) ks))) w)) (fun _ _ => False).
 Proof.
   intros Hk. cbn zeta. set (nr := eff_noreply c n). cbn [run_op]. fold nr.
   destruct (negb oneshot && match keys with [] => true | _ :: _ => false end) eqn:Eempty.
   - (* an empty list: nothing is sent *)
-    destruct keys; [|rewrite andb_false_r in Eempty; discriminate]. inversion Hk; subst ks. intros w Hw. cbn. split; [reflexivity|exact Hw].
+    destruct keys; [|rewrite andb_false_r in Eempty; discriminate]. inversion Hk; subst ks. intros w Hw. cbn. split; [reflexivity|left; split; [reflexivity|exact Hw]].
   - destruct (legal_keys_legal keys ks Hk) as [Hl Hn].
     set (cmds := map (fun k => CDelete k nr) ks).
     assert (Hwf : forallb wf_cmd cmds = true).
@@ -179,18 +185,18 @@ Proof.
     destruct nr eqn:Enr.
     + assert (Hsil : steps s cmds = (fst (run_cmds s cmds), [])) by (apply steps_silent; unfold cmds; apply Forall_forall; intros cm Hin; apply in_map_iff in Hin; destruct Hin as (k & <- & _); reflexivity).
       rewrite Hsil in Hsv.
-      pose proof (misc_cmd_noreply_quiet sstate serve c sid s _ (map (delete_line true) ks) Hsv w Hw) as Q. unfold mbind.
-      destruct (misc_cmd sstate serve c (map (delete_line true) ks) true [] w) as [[r|x] w']; [cbn [ret]; auto|destruct Q].
+      pose proof (misc_cmd_noreply_any sstate serve c fr Hcan s _ (map (delete_line true) ks) Hsv w Hw) as Q. unfold mbind.
+      destruct (misc_cmd sstate serve c (map (delete_line true) ks) true [] w) as [[r|x] w']; [cbn [ret]; split; [reflexivity|right; exact Q]|destruct Q].
     + assert (Hlines : steps s cmds = (fst (run_cmds s cmds), lines_bytes (map reply_line (snd (run_cmds s cmds))))).
       { apply steps_lines. unfold cmds. apply Forall_forall. intros cm Hin. apply in_map_iff in Hin. destruct Hin as (k & <- & _). split; reflexivity. }
       rewrite Hlines in Hsv.
       destruct (delete_outcomes_lines false ks s) as (Hok & _ & Hres). fold cmds in Hok, Hres.
       assert (Hlen : length (map reply_line (snd (run_cmds s cmds))) = length (map (delete_line false) ks)).
       { rewrite !map_length, run_cmds_length. unfold cmds. rewrite map_length. reflexivity. }
-      pose proof (misc_cmd_quiet sstate serve c sid s _ (map (delete_line false) ks) _ Hsv Hlen Hok catches_misc w Hw) as Q. unfold mbind.
+      pose proof (misc_cmd_any sstate serve c fr Hcan s _ (map (delete_line false) ks) _ Hsv Hlen Hok catches_misc w Hw) as Q. unfold mbind.
       destruct (Hres []) as (res & Eres).
       destruct (misc_cmd sstate serve c (map (delete_line false) ks) false [] w) as [[r|x] w'].
-      * destruct Q as [_ Q2]. cbn [ret]. auto.
+      * destruct Q as [_ Q2]. cbn [ret]. split; [reflexivity|right; exact Q2].
       * destruct Q as [Q1 _]. rewrite Eres in Q1. discriminate.
 Qed.
 End E2EMany.
